@@ -587,3 +587,32 @@ def ruleset_wiring(ctx, tag, settings):
                           "transposed (the compiler cannot see it)" % (pos, at, prm["name"]))
     ctx.counters[tag + "_wiring_hops"] = n
     ctx.floor(tag + "_wiring_hops", 2 * len(settings), "wiring hops examined for " + ", ".join(settings))
+
+
+def kmsg_record_complete(ctx, tag):
+    """Log::kmsgLog writes the caller's text in full: the record's tail carries the '(dry)' marker and the kill details, so the
+    buffer handed to the write is the parameter text, only ever extended (prefix in front, newline at the end), and written whole."""
+    P = ctx.prog
+    kl = ctx.fn1("Oomd::Log::kmsgLog")
+    ctx.use(kl)
+    X = Expander(P, kl)
+    wr = [i for i in kl.calls("Util::writeFull", "write") if len(kl.nodes[i].get("args", [])) == 3 and "kmsg_fd_" in kl.text(kl.nodes[i]["args"][0])]
+    ctx.counters[tag + "_kmsg_write_sites"] = len(wr)
+    ctx.floor(tag + "_kmsg_write_sites", 1, "write of the kmsg record in Log::kmsgLog")
+    SHRINK = ("resize", "substr", "erase", "pop_back", "clear", "assign", "remove_suffix", "remove_prefix", "replace", "shrink_to_fit", "operator=")
+    for i in wr:
+        a = kl.nodes[i]["args"]
+        m = re.match(r"^(\w+)\.(data|c_str)\(\)$", kl.text(a[1]))
+        if not m:
+            ctx.broken(tag + ":kmsg-record-complete", "anchor", kl.loc(i), "cannot identify the buffer written to kmsg: " + kl.text(a[1]))
+            continue
+        var = m.group(1)
+        init, v = local_init(kl, var, must=False)
+        src = X(init) if v is not None and init is not None and init >= 0 else "?"
+        whole = kl.text(a[2]) in ("%s.size()" % var, "%s.length()" % var)
+        verbatim = re.match(r"^(std::string\()?param:buf\)?$|^std::basic_string<char>\(param:buf\)$", src) is not None
+        shrinks = [kl.text(j)[:50] for j in kl.calls(*SHRINK) if kl.text(kl.nodes[j].get("recv", -1)) == var and kl.nodes[j].get("cname") != "operator="]
+        ctx.check(verbatim and whole and not shrinks, tag + ":kmsg-record-complete", "provenance + who-may-write (extend only)", kl.loc(i),
+                  "the kmsg record is the caller's text, only extended by prefix and newline, and written in full",
+                  "the buffer written to kmsg is built from '%s'%s%s: the record can lose its tail - the '(dry)' marker and the kill details stand at the end "
+                  "of the text" % (src[:90], "" if whole else ", length " + kl.text(a[2]), (", shortened by " + ", ".join(shrinks)) if shrinks else ""))
